@@ -16,6 +16,10 @@ from ..utils import EPSILON, MAX_FLOAT, scalar_triple_product
 
 
 EPSILON_SQR = EPSILON * EPSILON
+# Triangles whose squared sine of the angle between two edges is below this
+# value are slivers: the barycentric coordinates computed from the Gram
+# determinant are dominated by cancellation errors.
+SLIVER_EPSILON = 1e-10
 ALL_TRUE = np.array([True, True, True, True], dtype=np.dtype("bool"))
 
 
@@ -336,7 +340,7 @@ def get_barycentric_coordinates_plane(a, b, c):
         # Use v0 and v1 to calculate barycentric coordinates
         d01 = v0.dot(v1)
         denominator = d00 * d11 - d01 * d01
-        if abs(denominator) < EPSILON:
+        if abs(denominator) <= SLIVER_EPSILON * d00 * d11:
             # Degenerate triangle, return coordinates along longest edge
             if d00 > d11:
                 u, v = get_barycentric_coordinates_line(a, b)
@@ -355,7 +359,7 @@ def get_barycentric_coordinates_plane(a, b, c):
         d12 = v1.dot(v2)
 
         denominator = d11 * d22 - d12 * d12
-        if abs(denominator) < EPSILON:
+        if abs(denominator) <= SLIVER_EPSILON * d11 * d22:
             # Degenerate triangle, return coordinates along longest edge
             if d11 > d22:
                 u, w = get_barycentric_coordinates_line(a, c)
